@@ -505,10 +505,14 @@ var docLayouts = []string{"file:///v/r/root.json", "file:///v/r/other.json", "fi
 // prefix confuses them.
 var twinLayouts = []string{"file:///v/r/root.json", "http://h.example/v/r/root.json", "https://h.example/v/r/root.json", "http://mirror.example/v/r/root.json",
 	"file:///v/r/root.jsonx", "file:///v/r/root.json.d/s.json", "http://h.example/v/r/root.json2",
-	"file:///v/r-common/items.json", "file:///v/r2/o.json", "file:///v/rr.json"}
+	"file:///v/r-common/items.json", "file:///v/r2/o.json", "file:///v/rr.json",
+	// same host name, another port; same location up to letter case (two different documents)
+	"http://h.example:8080/v/r/root.json", "file:///v/r/Root.json", "file:///v/R/root.json"}
 
 // httpLayouts: the root document itself is served over http
-var httpLayouts = []string{"http://h.example/api/root.json", "http://h.example/api/other.json", "http://h.example/api/sub/s.json", "https://o.example/x.json", "http://h.example/p.json"}
+var httpLayouts = []string{"http://h.example/api/root.json", "http://h.example/api/other.json", "http://h.example/api/sub/s.json", "https://o.example/x.json", "http://h.example/p.json",
+	// the root's host name on another port: another site (same path as the root, and a sibling of it)
+	"http://h.example:8080/api/root.json", "http://h.example:8080/api/other.json", "http://h.example/api/Other.json"}
 
 var nastyDefNames = []string{"a/b", "a~b", "a%20b", "a b", "é", "{x}", "a#b", "a?b", "x.y", "a%b"}
 
